@@ -1,6 +1,7 @@
 """C07 - time bookkeeping: steps advance by dt, snapshots land on the requested times."""
 from fractions import Fraction
 from . import stubs
+from . import common as cm
 
 ID = 'C07'
 EXPLORE = True
@@ -66,7 +67,7 @@ def _copy(cfg, B):
     for scalar components and for the (2, ncell) vector component of the 2D model"""
     fd = B.fd
     model = fd.euler.euler2d(gamma=B.const('7/5'))
-    mesh = fd.mesh2d.mesh2d(2, 1, B.pos('lx'), B.pos('ly'))
+    mesh = cm.mesh2d(B, fd, 2, 1, B.pos('lx'), B.pos('ly'))
     n = 2
     orig = [B.vararray('r', n), B.vararray('m', (2, n)), B.vararray('e', n)]
     data = [d.copy() for d in orig]
